@@ -234,8 +234,21 @@ func indexRule(c *Ctx, rule, doc string, scope func(*Prog, *ssa.Function) bool, 
 					facts := e.LinFactsAt(in, nil)
 					all := e.factsAt(in.Block(), in, nil)
 					for x := e; x.Parent != nil; x = x.Parent {
-						facts = append(facts, x.Parent.LinFactsAt(x.Call, nil)...)
-						all = append(all, x.Parent.factsAt(x.Call.Block(), x.Call, nil)...)
+						if x.Call == nil {
+							// a function literal: what held where it was created, as far as it concerns the input and parameters
+							if x.closure != nil && x.defining() != nil && x.closure.Parent() == x.defining().Fn {
+								for _, f := range x.defining().factsAt(x.closure.Block(), x.closure, nil) {
+									if !strings.Contains(f.Key(), "#") {
+										all = append(all, f)
+									}
+								}
+							}
+							continue
+						}
+						if ci, ok := x.Call.(ssa.Instruction); ok && ci.Parent() == x.Parent.Fn {
+							facts = append(facts, x.Parent.LinFactsAt(x.Call, nil)...)
+							all = append(all, x.Parent.factsAt(x.Call.Block(), x.Call, nil)...)
+						}
 					}
 					return evenLoopFacts(e, in, append(facts, all...))
 				})
